@@ -18,8 +18,9 @@ RULE = ("per plugin: 1..7 siblings at depth 1 (raw protection) or 2 (protection 
         "size_threshold 0..100 (+ >100), percentile 0..99, min_growth_ratio integral and fractional, 1..5 tick usage "
         "histories; SwapTotal/MemTotal absent, 0, < 2^31, in [2^31,2^32), > 2^32, thresholds as %, MiB, K/M/G/T, default, "
         "biased or not; PSI averages with two decimals incl. same-integer-part pairs; io.stat on two known and one unknown "
-        "device with dyadic coefficients, two or three ticks, cgroups born on the last tick; pgscan deltas positive, zero, "
-        "negative, cgroups born late.  non-trivial = at least two targeted siblings share the first choice's preference "
+        "device with dyadic coefficients, 1..5 ticks, cgroups born on the last tick; pgscan deltas positive, zero, "
+        "negative, cgroups born late; individual siblings with a missed read (io.stat / memory.stat absent, pgscan line "
+        "missing) on some tick, most often the one before the ranking.  non-trivial = at least two targeted siblings share the first choice's preference "
         "and the plugin returned a non-empty ranking")
 ASSUMPTIONS = [
     "the siblings' memory.current sum is below 2^63 (the code adds them in int64_t)",
@@ -29,8 +30,9 @@ ASSUMPTIONS = [
     "control files are well formed (missing / malformed files are C10's subject)",
     "eligibility thresholds are compared at whole-byte granularity; decisions that depend on IEEE rounding or on the "
     "sub-byte truncation of a threshold are tolerated by the oracle and counted (coverage.rounding_tolerated)",
-    "a cgroup without a previous sample has no defined io-cost / pgscan increase and usage/0 has no defined growth: "
-    "the oracle accepts either treatment",
+    "the io-cost / pgscan increase is the difference to the previous tick's sample; without a sample on this or the "
+    "previous tick there is no increase (io cost 0, pgscan not eligible), as the unchanged code has it",
+    "usage/0 has no defined growth: the oracle accepts either treatment",
 ]
 TRUSTED = ["IEEE-754 double/float arithmetic of Lean's Float/Float32 equals the C++ (validated bit for bit on every run)",
            "glibc strtof/strtod vs Float.ofScientific on two-decimal literals (validated on every run)"]
@@ -435,9 +437,53 @@ def gen_pressure(rng):
 COEFF = ["0", "1", "2", "0.5", "0.25", "1.5", "3", "8", "0.125", "10", "1.75", "100"]
 
 
+def add_missed_reads(rng, sc, kinds):
+    """individual siblings miss a read on some tick (most often the tick before the ranking)"""
+    nt = sc["nticks"]
+    for s in sc["sibs"]:
+        born = s.get("born", 0)
+        if rng.random() < 0.35:
+            t = rng.choice([nt - 2, nt - 2, nt - 2, nt - 1, rng.randrange(nt)])
+            if born <= t < born + len(s["ticks"]):
+                s["ticks"][t - born] = dict(s["ticks"][t - born], miss=rng.choice(kinds))
+    return sc
+
+
+def gen_rate_gap(rng, plugin):
+    """3..5 ticks, steady per-tick increments of similar size, one sibling misses the read on the tick before the
+    ranking: its increase over two ticks would exceed everybody's one-tick increase"""
+    sc = base(rng, plugin, n=rng.choice([2, 3, 4]))
+    for s in sc["sibs"]:
+        s.pop("target", None)
+    nt = rng.choice([3, 3, 4, 5])
+    sc["nticks"] = nt
+    sc["ssd"] = ["1", "0", "0", "0", "0", "0"]
+    sc["hdd"] = ["1", "0", "0", "0", "0", "0"]
+    step = rng.choice([1, 10, 500, 4096])
+    victim = rng.randrange(len(sc["sibs"]))
+    kind = rng.choice(["memstat", "nopgscan"]) if plugin == "kill_by_pg_scan" else "iostat"
+    for i, s in enumerate(sc["sibs"]):
+        v = rng.randint(0, 100) * step
+        inc = rng.randint(3, 6) * step
+        if i == victim:
+            inc = rng.choice([inc, rng.randint(2, 4) * step, 0])
+        ticks = []
+        for t in range(nt):
+            if t:
+                v += inc + (rng.randint(0, 2) * step if rng.random() < 0.3 else 0)
+            tk = {"pgscan": str(v), "io": [["8:0", "0", "0", str(v), "0", "0", "0"]], "cur": str(size(rng, 1 << 40))}
+            if i == victim and t == nt - 2:
+                tk["miss"] = kind
+            ticks.append(tk)
+        s["ticks"] = ticks
+    return finish_mem(rng, sc)
+
+
 def gen_iocost(rng):
+    if rng.random() < 0.2:
+        return gen_rate_gap(rng, "kill_by_io_cost")
     sc = base(rng, "kill_by_io_cost")
-    nt = rng.choice([2, 2, 2, 3, 1])
+    nt = rng.choice([2, 2, 2, 3, 3, 4, 5, 1])
     sc["nticks"] = nt
     sc["ssd"] = [rng.choice(COEFF) for _ in range(6)]
     sc["hdd"] = [rng.choice(COEFF) for _ in range(6)]
@@ -462,14 +508,16 @@ def gen_iocost(rng):
                         cum[d] = [0] * 6          # counters reset
             ticks.append({"io": [[d] + [str(x) for x in cum[d]] for d in devs], "cur": str(size(rng, 1 << 40))})
         s["ticks"] = ticks
-    return finish_mem(rng, sc)
+    return finish_mem(rng, add_missed_reads(rng, sc, ["iostat"]))
 
 
 # ---------------------------------------------------------------- kill_by_pg_scan
 
 def gen_pgscan(rng):
+    if rng.random() < 0.2:
+        return gen_rate_gap(rng, "kill_by_pg_scan")
     sc = base(rng, "kill_by_pg_scan")
-    nt = rng.choice([2, 2, 2, 3])
+    nt = rng.choice([2, 2, 2, 3, 3, 4, 5])
     sc["nticks"] = nt
     shared = rng.choice([0, 1, 5, 1000, 1 << 33])
     for s in sc["sibs"]:
@@ -494,7 +542,7 @@ def gen_pgscan(rng):
                 v = max(0, v + d)
             ticks.append({"pgscan": str(v), "cur": str(size(rng, 1 << 40))})
         s["ticks"] = ticks
-    return finish_mem(rng, sc)
+    return finish_mem(rng, add_missed_reads(rng, sc, ["memstat", "nopgscan"]))
 
 
 GENS = [gen_growth, gen_swap, gen_pressure, gen_iocost, gen_pgscan]
@@ -583,6 +631,10 @@ def shrink_candidates(s):
             yield dict(s, sibs=sibs[:i] + [y] + sibs[i + 1:])
         if len(x["ticks"]) > 1 and s["plugin"] == "kill_by_memory_size_or_growth":
             yield dict(s, sibs=sibs[:i] + [dict(x, ticks=x["ticks"][1:])] + sibs[i + 1:])
+        if len(x["ticks"]) > 2 and s["plugin"] in ("kill_by_io_cost", "kill_by_pg_scan") and "born" not in x \
+                and all(len(y["ticks"]) == len(x["ticks"]) and "born" not in y for y in sibs) and i == 0:
+            # drop the first tick of everybody
+            yield dict(s, nticks=s["nticks"] - 1, sibs=[dict(y, ticks=y["ticks"][1:]) for y in sibs])
         for f in ("min", "low"):
             if x["ticks"][-1].get(f, "0") != "0":
                 tk = [dict(t, **{f: "0"}) for t in x["ticks"]]
